@@ -15,7 +15,7 @@ MODULE = "PotasscoVerif.Props.C18"
 THEOREMS = ["PotasscoVerif.C18.C18_blocked_accounting", "PotasscoVerif.C18.C18_callback_entry_unblocked", "PotasscoVerif.C18.C18_immediate",
             "PotasscoVerif.C18.C18_callstart_step", "PotasscoVerif.C18.C18_blocked_path_no_callback", "PotasscoVerif.C18.C18_no_loss",
             "PotasscoVerif.C18.C18_no_clear_reachable", "PotasscoVerif.C18.C18_delivered_at_most_once", "PotasscoVerif.C18.C18_pristine_loses", "PotasscoVerif.C18.C18_blocked_keeps_first", "PotasscoVerif.C18.C18_blocked_first_remembered",
-            "PotasscoVerif.C18.C18_repaired_keeps"]
+            "PotasscoVerif.C18.C18_repaired_keeps", "PotasscoVerif.C18.C18_inner_release_keeps"]
 PARTIAL = {"callback bodies": "a callback is one opaque step pair (entry, exit) during which signals may arrive; block/unblock calls made from inside a callback are not modelled",
            "C18_one_remembered(first)": "that the remembered signal is the FIRST arrival when arrivals do not overlap is checked by the trace oracle (rule C18:not-first-remembered) and follows in the model from C18_blocked_keeps_first"}
 BSIZES = (4096,)
@@ -117,6 +117,10 @@ def check_trace(c, toks):
         # ever *removed* by the release step
         if prev is not None and prev[2] != 0 and p != prev[2] and not (prev[0] == 11 or (prev[0] == 4 and p != 0)):
             return ("C18:remembered-signal-erased", "pending signal %d was replaced by %d in a step (yield %d) that is not the release" % (prev[2], p, prev[0]))
+        # "the remembered one is handed to the callback … when the application next releases its OUTERMOST block": a release that leaves the
+        # application inside a block section must leave the remembered signal where it is
+        if prev is not None and prev[2] != 0 and p == 0 and depth > 0:
+            return ("C18:inner-release-drops-remembered", "the remembered signal %d was taken out of the slot by a release that is not the outermost one (application depth %d)" % (prev[2], depth))
         # the outermost release (yield 11 is reached when the count dropped to zero) takes the remembered signal out of the slot —
         # to deliver it or to drop it: unless an arrival interrupts right there, the next observation shows an empty slot
         if prev is not None and prev[0] == 11 and i != 1 and p != 0:
